@@ -177,8 +177,8 @@ register(
 
 register(
     "C02",
-    lean_modules=["EventppVerif.Properties.C02", "EventppVerif.Properties.C02bridge"],
-    theorems=["Evp.sim_step", "Evp.sim_runN", "Evp.minv_runN", "Evp.PL.bridge_doFreeNode", "Evp.PL.bridge_doAppend", "Evp.PL.bridge_doInsert"],
+    lean_modules=["EventppVerif.Properties.C02", "EventppVerif.Properties.C02bridge", "EventppVerif.CL.WFCheck"],
+    theorems=["Evp.sim_step", "Evp.sim_runN", "Evp.minv_runN", "Evp.wfCheck_sound", "Evp.PL.bridge_doFreeNode", "Evp.PL.bridge_doAppend", "Evp.PL.bridge_doInsert"],
     fragments=["ClFrag"],
     suites=[cl_suite("reent", 400, 12000, rule="random re-entrant programs: callbacks remove/insert near themselves (self, self+-1, self+-2), append, prepend, "
                      "re-invoke and enumerate to depth 3, through live / removed / never-issued handles; single, std::mutex and (thorough) SpinLock policies; "
